@@ -107,30 +107,54 @@ theorem groupIPPorts_spec (ms : List IPPort) :
               · left; exact h1'
 
 
-/-- Supported rule in a given direction: the base criteria plus the documented contract of
-`dst_ip_port_set_ids` (a Service match): one set, alone in the rule, egress only. -/
+/-- Supported rule in a given direction: the base criteria plus what is left of the restriction on
+`dst_ip_port_set_ids` (a Service match) after /repo commit 44f8f9c: one set, egress only, and NO
+source/destination nets or IP sets and no destination ports next to it (destination criteria are
+forbidden by the v3 API; SOURCE nets / IP sets are legal but still ignored by the converter —
+`hns_verdict_false_service_source`).  Protocol and source ports are honoured. -/
 structure Rule.supportedIn (r : Rule) (inbound : Bool) : Prop where
   base : r.supported
   ipport : r.dstIpPortSets = [] ∨
-    (inbound = false ∧ (∃ id, r.dstIpPortSets = [id]) ∧ r.proto = none ∧ r.srcNet = [] ∧ r.dstNet = [] ∧
-      r.srcPorts = [] ∧ r.dstPorts = [] ∧ r.srcSets = [] ∧ r.dstSets = [])
+    (inbound = false ∧ (∃ id, r.dstIpPortSets = [id]) ∧ r.srcNet = [] ∧ r.dstNet = [] ∧
+      r.dstPorts = [] ∧ r.srcSets = [] ∧ r.dstSets = [])
 
 /-- IP-port set members carry a protocol name the converter knows (tcp/udp/sctp in practice). -/
 def IPSets.ipportOK (s : IPSets) : Prop :=
   ∀ id m, s.getIPPort id = some m → ∀ x ∈ m, protocolNameToNumber x.proto ≠ 256
 
+theorem any_pairs {α β γ : Type} (l : List α) (m : List β) (F : (α × β) × Nat → γ) (q : γ → Bool)
+    (qa : α → Bool) (qb : β → Bool) (h : ∀ a ∈ l, ∀ b i, q (F ((a, b), i)) = (qa a && qb b)) :
+    (((l.flatMap fun a => m.map fun b => (a, b)).zipIdx).map F).any q = (l.any qa && m.any qb) := by
+  rw [any_zipIdx_map_mem _ F q (fun c => qa c.1 && qb c.2)]
+  · simp only [List.any_flatMap, List.any_map, Function.comp_def]
+    induction l with
+    | nil => simp
+    | cons a rest ih =>
+      simp only [List.any_cons]
+      rw [ih (fun x hx => h x (by simp [hx]))]
+      have : (m.any fun b => qa a && qb b) = (qa a && m.any qb) := by
+        induction m with
+        | nil => simp
+        | cons b r ihm => simp only [List.any_cons, ihm]; cases qa a <;> simp
+      rw [this]
+      cases qa a <;> cases m.any qb <;> simp
+  · intro c hc i
+    obtain ⟨a, ha, hc⟩ := List.mem_flatMap.1 hc
+    obtain ⟨b, _, rfl⟩ := List.mem_map.1 hc
+    exact h a ha b i
+
 theorem rule_sem_ipport (s : IPSets) (hipp : s.ipportOK) (r : Rule) (hsup : r.supported) (id : String)
-    (hid : r.dstIpPortSets = [id]) (hproto : r.proto = none) (h1 : r.srcNet = []) (h2 : r.dstNet = [])
-    (h3 : r.srcPorts = []) (h4 : r.dstPorts = []) (h5 : r.srcSets = []) (h6 : r.dstSets = [])
-    (n : Nat) (pid : String) (p : Pkt) :
+    (hid : r.dstIpPortSets = [id]) (h1 : r.srcNet = []) (h2 : r.dstNet = [])
+    (h4 : r.dstPorts = []) (h5 : r.srcSets = []) (h6 : r.dstSets = [])
+    (n : Nat) (hn : 0 < n) (pid : String) (p : Pkt) :
     (∀ h ∈ hr s pid r false n, h.action = ruleAction r ∧ h.inbound = false) ∧
     (hr s pid r false n).any (·.matches p) = r.matches s p := by
   obtain ⟨act, hact⟩ := Option.isSome_iff_exists.1 hsup.action
   have hra : ruleAction r = act := by simp [ruleAction, hact]
   have hipv : ¬ (r.ipVersion ≠ 0 ∧ r.ipVersion ≠ 4) := by
     rcases hsup.ipv with h | h <;> simp [h]
-  have hmatch : r.matches s p = inIPPortSet s id p := by
-    simp [Rule.matches, hproto, protoOK, h1, h2, h3, h4, h5, h6, hid, addrsOK, portsOK]
+  have hmatch : r.matches s p = (protoOK r.proto p && portsOK r.srcPorts p.sport && inIPPortSet s id p) := by
+    simp [Rule.matches, h1, h2, h4, h5, h6, hid, addrsOK, portsOK]
   unfold hr protoRuleToHnsRules
   simp only [hipv, if_false, hsup.noNotSrc, hsup.noNotDst, hsup.noNeg, hsup.noIcmp, hsup.noNamed,
     List.isEmpty_nil, Bool.not_true, Bool.or_self, Bool.false_eq_true, hact, hid, h1, h2, filterNets,
@@ -141,38 +165,102 @@ theorem rule_sem_ipport (s : IPSets) (hipp : s.ipportOK) (r : Rule) (hsup : r.su
     simp only [Option.map_some, List.append_nil]
     obtain ⟨_, hne, hmem⟩ := groupIPPorts_spec ms
     have hok := hipp id ms hg
+    -- the rule's protocol number and how it relates to protoOK
+    have hrp : ∀ g : Nat, g ≠ 256 →
+        (((withProto (baseRule act false) r.proto).proto == 256 || g == (withProto (baseRule act false) r.proto).proto) &&
+          (g == p.proto)) = (protoOK r.proto p && (g == p.proto)) := by
+      intro g hg256
+      have hp := hsup.proto
+      cases hpr : r.proto with
+      | none => simp [withProto, baseRule, protoOK]
+      | some ps =>
+        rw [hpr] at hp
+        cases ps with
+        | name nm =>
+          simp only at hp
+          have : (protocolNameToNumber nm == 256) = false := by simpa using hp
+          simp only [withProto, protoOK, this, Bool.false_or]
+          by_cases he : g = protocolNameToNumber nm
+          · subst he; simp
+          · have e1 : (g == protocolNameToNumber nm) = false := by simpa using he
+            simp only [e1, Bool.false_and]
+            by_cases he2 : g = p.proto
+            · have : (protocolNameToNumber nm == p.proto) = false := by
+                simp only [beq_eq_false_iff_ne, ne_eq]; exact fun h => he (he2.trans h.symm)
+              simp [this]
+            · have : (g == p.proto) = false := by simpa using he2
+              simp [this]
+        | num k =>
+          simp only at hp
+          have hk : k % 65536 = k := Nat.mod_eq_of_lt (by omega)
+          have : (k == 256) = false := by simp; omega
+          simp only [withProto, protoOK, hk, this, Bool.false_or]
+          by_cases he : g = k
+          · subst he; simp
+          · have e1 : (g == k) = false := by simpa using he
+            simp only [e1, Bool.false_and]
+            by_cases he2 : g = p.proto
+            · have : (k == p.proto) = false := by
+                simp only [beq_eq_false_iff_ne, ne_eq]; exact fun h => he (he2.trans h.symm)
+              simp [this]
+            · have : (g == p.proto) = false := by simpa using he2
+              simp [this]
     constructor
     · apply mem_zipIdx_map
       intro g i
       exact ⟨by rw [hra]; rfl, rfl⟩
-    · rw [any_zipIdx_map_mem _ _ _ (fun g : Nat × Nat × List Addr =>
-        (g.1 == p.proto) && g.2.2.any (·.contains p.dst) && (g.2.1 == p.dport))]
-      · rw [hmatch, Bool.eq_iff_iff]
-        simp only [inIPPortSet, hg, List.any_eq_true, Bool.and_eq_true, beq_iff_eq]
-        constructor
-        · rintro ⟨g, hgm, ⟨hpr, a, ha, hc⟩, hpo⟩
-          obtain ⟨m, hm, e1, e2, e3⟩ := (hmem g.1 g.2.1 a).1 ⟨g, hgm, rfl, rfl, ha⟩
-          exact ⟨m, hm, ⟨by rw [e3]; exact hc, by rw [e1, hpr]⟩, by rw [e2, hpo]⟩
-        · rintro ⟨m, hm, ⟨hc, hpr⟩, hpo⟩
-          obtain ⟨g, hgm, e1, e2, e3⟩ := (hmem _ _ _).2 ⟨m, hm, rfl, rfl, rfl⟩
-          exact ⟨g, hgm, ⟨by rw [e1, hpr], m.addr, e3, hc⟩, by rw [e2, hpo]⟩
-      · intro g hgm i
-        -- the group's protocol is a known one (never 256 = any) and the group is not empty
-        have hgne := hne g hgm
+    · rw [any_pairs _ _ _ _
+        (fun g : Nat × Nat × List Addr => (g.1 == p.proto) && g.2.2.any (·.contains p.dst) && (g.2.1 == p.dport))
+        (fun sp : List PortRange => portsOK sp p.sport)]
+      · rw [portsOK_split _ n hn, hmatch, List.any_filter]
+        -- fold the protocol filter into the group predicate
+        have hgrp : ((groupIPPorts ms).any fun g =>
+            ((withProto (baseRule act false) r.proto).proto == 256 || g.1 == (withProto (baseRule act false) r.proto).proto) &&
+              ((g.1 == p.proto) && g.2.2.any (·.contains p.dst) && (g.2.1 == p.dport))) =
+            (protoOK r.proto p && inIPPortSet s id p) := by
+          have h256 : ∀ g ∈ groupIPPorts ms, g.1 ≠ 256 := by
+            intro g hgm
+            cases hl : g.2.2 with
+            | nil => exact absurd hl (hne g hgm)
+            | cons a _ =>
+              obtain ⟨m, hm, e1, _, _⟩ := (hmem g.1 g.2.1 a).1 ⟨g, hgm, rfl, rfl, by simp [hl]⟩
+              rw [← e1]; exact hok m hm
+          rw [any_congr_mem (q := fun g => protoOK r.proto p && ((g.1 == p.proto) && g.2.2.any (·.contains p.dst) && (g.2.1 == p.dport)))]
+          · rw [any_const_and]
+            congr 1
+            rw [Bool.eq_iff_iff]
+            simp only [inIPPortSet, hg, List.any_eq_true, Bool.and_eq_true, beq_iff_eq]
+            constructor
+            · rintro ⟨g, hgm, ⟨hpr, a, ha, hc⟩, hpo⟩
+              obtain ⟨m, hm, e1, e2, e3⟩ := (hmem g.1 g.2.1 a).1 ⟨g, hgm, rfl, rfl, ha⟩
+              exact ⟨m, hm, ⟨by rw [e3]; exact hc, by rw [e1, hpr]⟩, by rw [e2, hpo]⟩
+            · rintro ⟨m, hm, ⟨hc, hpr⟩, hpo⟩
+              obtain ⟨g, hgm, e1, e2, e3⟩ := (hmem _ _ _).2 ⟨m, hm, rfl, rfl, rfl⟩
+              exact ⟨g, hgm, ⟨by rw [e1, hpr], m.addr, e3, hc⟩, by rw [e2, hpo]⟩
+          · intro g hgm
+            have := hrp g.1 (h256 g hgm)
+            generalize ((withProto (baseRule act false) r.proto).proto == 256 || g.1 == (withProto (baseRule act false) r.proto).proto) = A at this ⊢
+            generalize (g.1 == p.proto) = B at this ⊢
+            cases A <;> cases B <;> simp_all
+        rw [hgrp]
+        cases protoOK r.proto p <;> cases portsOK r.srcPorts p.sport <;> simp
+      · intro g hgm sp i
+        have hgm' := (List.mem_filter.1 hgm).1
+        have hgne := hne g hgm'
         have h256 : (g.1 == 256) = false := by
           cases hl : g.2.2 with
           | nil => exact absurd hl hgne
           | cons a _ =>
-            obtain ⟨m, hm, e1, _, _⟩ := (hmem g.1 g.2.1 a).1 ⟨g, hgm, rfl, rfl, by simp [hl]⟩
+            obtain ⟨m, hm, e1, _, _⟩ := (hmem g.1 g.2.1 a).1 ⟨g, hgm', rfl, rfl, by simp [hl]⟩
             have := hok m hm
             rw [e1] at this
             simpa using this
         have hemp : g.2.2.isEmpty = false := by cases hl : g.2.2 <;> simp_all
-        simp only [HRule.matches, baseRule, Bool.false_eq_true, if_false, h256, Bool.false_or, addrsOK,
-          List.isEmpty_nil, Bool.and_true, hemp, portsOK, List.isEmpty_cons, List.any_cons,
-          List.any_nil, Bool.or_false, PortRange.contains]
         have hport : (decide (g.2.1 ≤ p.dport) && decide (p.dport ≤ g.2.1)) = (g.2.1 == p.dport) := by
           rw [Bool.eq_iff_iff]; simp only [Bool.and_eq_true, decide_eq_true_eq, beq_iff_eq]; omega
-        rw [hport]
+        simp only [HRule.matches, baseRule, Bool.false_eq_true, if_false, h256, Bool.false_or, addrsOK,
+          List.isEmpty_nil, Bool.true_or, Bool.and_true, hemp, portsOK, List.isEmpty_cons, List.any_cons,
+          List.any_nil, Bool.or_false, PortRange.contains, hport]
+        cases (g.1 == p.proto) <;> cases (g.2.2.any fun a => a.contains p.dst) <;> cases (g.2.1 == p.dport) <;> simp
 
 end CalicoVerif.C30
